@@ -795,7 +795,9 @@ class Engine:
             x, y = (a, b) if isinstance(a, VAny) else (b, a)
             # an opaque value compared with a literal: an uninterpreted but *deterministic* test
             if isinstance(y, VStr) and y.lit is not None:
-                return z3.Function('any_eq_str_%s' % ''.join('%02x' % ord(c) for c in y.lit[:12]), IntS, BoolS)(x.t)
+                # equal if it IS that literal (stored earlier), otherwise an uninterpreted deterministic test
+                return OR(x.t == self.lit_key(y.lit),
+                          z3.Function('any_eq_str_%s' % ''.join('%02x' % ord(c) for c in y.lit[:12]), IntS, BoolS)(x.t))
             if isinstance(y, (VInt, VBool)):
                 return z3.Function('any_eq_int', IntS, IntS, BoolS)(x.t, self.num(y))
             return fresh_bool('eqany')
